@@ -3639,6 +3639,12 @@ void space_text()
                size_t last  = pc->GetStr()[pc->Len() - 1];
                size_t first = next->GetStr()[0];
 
+               // two texts that touch in the input already lex the way they do when they
+               // touch in the output: '2...' stays what it was
+               const bool touched = (  pc->GetOrigLine() == next->GetOrigLine()
+                                    && pc->GetOrigColEnd() != 0
+                                    && pc->GetOrigColEnd() == next->GetOrigCol());
+
                if (  kw1
                   && (  kw2
                      || unc_isdigit(first)))
@@ -3662,7 +3668,8 @@ void space_text()
                           __func__, __LINE__, pc->Text(), next->Text());
                   pc->SetFlagBits(PCF_FORCE_SPACE);
                }
-               else if (  (  pc->Is(CT_NUMBER)
+               else if (  !touched
+                       && (  pc->Is(CT_NUMBER)
                           || pc->Is(CT_NUMBER_FP))
                        && (  first == '+'
                           || first == '-')
@@ -3676,7 +3683,8 @@ void space_text()
                           __func__, __LINE__, pc->Text(), next->Text());
                   pc->SetFlagBits(PCF_FORCE_SPACE);
                }
-               else if (  first == '.'
+               else if (  !touched
+                       && first == '.'
                        && (  pc->Is(CT_NUMBER)
                           || pc->Is(CT_NUMBER_FP))
                        && !(  language_is_set(lang_flag_e::LANG_D)
@@ -3687,7 +3695,8 @@ void space_text()
                           __func__, __LINE__, pc->Text(), next->Text());
                   pc->SetFlagBits(PCF_FORCE_SPACE);
                }
-               else if (  last == '.'
+               else if (  !touched
+                       && last == '.'
                        && unc_isdigit(first)
                        && (  pc->Len() == 1
                           || pc->Is(CT_NUMBER)
